@@ -13,6 +13,14 @@ REALS_AXIOMS = ["ClassicalDedekindReals.sig_forall_dec", "ClassicalDedekindReals
                 "FunctionalExtensionality.functional_extensionality_dep"]
 
 PROPS = {
+    "C16": {
+        "drivers": [{"src": "drv_C16.C", "repo_sources": ["util/Pauli.C"]}],
+        "coq": ["Tie_C16.v", "Properties_C16.v"],
+        "thm_files": [],
+        "assumptions": ["alias shapes enumerated: distinct copy, the object itself, each element/component of the destination",
+                        "divisors non-zero"],
+        "trusted_base": [],
+    },
     "C15": {
         "drivers": [{"src": "drv_C15.C", "repo_sources": ["util/Pauli.C"]}],
         "coq": ["Tie_C15.v", "Tie_C15_tr0.v", "Tie_C15_tr1.v", "Tie_C15_tr2.v", "Tie_C15_tr3.v", "Properties_C15.v"],
@@ -21,3 +29,4 @@ PROPS = {
         "trusted_base": [],
     },
 }
+NOT_YET = {}
